@@ -71,6 +71,7 @@ impl Storage {
         // FIXME: Replace with something like `exhaust`.
         self.snaps.drain(..).map(|s| self_free.push(s.snap)).count();
         self.ack_tick = None;
+        self.delta_tick = None;
     }
     pub fn ack_tick(&self) -> Option<i32> {
         self.ack_tick
